@@ -1,4 +1,5 @@
 import Bxh.Props.C04
+import Bxh.Proofs.ExecGlob
 /-!
 # C05 — one-to-many cross-chain transactions are all-or-nothing
 
@@ -190,5 +191,203 @@ example :
     (match tmChangeMulti {} gid g b 2 with
       | .ok (_, g') => g'.state == .beginFailure && g'.children == [(a, .beginFailure), (b, .failure)]
       | .error _ => false) = true := by decide
+
+-- ------------------------------------------------------------------------------------ history level
+/-- table fact: nothing but the "begin" event leads into BEGIN -/
+theorem table_begin_event : ∀ e ∈ Gen.txFsm, e.2.2 = "BEGIN" → e.1 = "begin" := by decide
+
+theorem step_to_begin_event (st : Status) (ev : String) (h : txFsmStep st ev = some .begin) : ev = "begin" := by
+  unfold txFsmStep fsmStep at h
+  cases hl : fsmLookup Gen.txFsm ev st.name with
+  | none => simp [hl] at h
+  | some d =>
+    simp only [hl] at h
+    split at h
+    · cases h
+    · obtain ⟨e, he, hev, _, hd⟩ := fsmLookup_mem _ _ _ _ hl
+      have hdn := ofName_eq d .begin h
+      have := table_begin_event e he (by rw [hd, hdn]; rfl)
+      rw [← hev]; exact this
+
+/-- no receipt type is mapped to the "begin" event -/
+theorem receiptEvent_ne_begin (typ : Nat) : receiptEvent typ ≠ "begin" := by
+  unfold receiptEvent
+  have hall : ∀ p ∈ Gen.receipt2Event, p.2 ≠ "begin" := by decide
+  cases h : Gen.receipt2Event.find? (·.1 == typ) with
+  | none => simp
+  | some p =>
+    simp only [Option.map_some, Option.getD_some]
+    exact hall p (List.mem_of_find?_eq_some h)
+
+/-- a report never moves a group (back) into BEGIN -/
+theorem tmChangeMulti_not_begin (l l' : Led) (gid : GId) (g g' : Global) (id : TxId) (typ : Nat)
+    (h : tmChangeMulti l gid g id typ = .ok (l', g')) (hb : g.state ≠ .begin) : g'.state ≠ .begin := by
+  unfold tmChangeMulti at h
+  split at h
+  · rename_i hc; exact absurd hc.1 hb
+  · simp only at h
+    split at h
+    · cases h
+    · split at h
+      · split at h
+        · cases h
+        · rename_i gs hgs
+          split at h
+          · cases h
+          · cases h
+            simp only
+            intro hgs'
+            subst hgs'
+            exact receiptEvent_ne_begin typ (step_to_begin_event _ _ hgs)
+      · cases h; exact hb
+
+/-- a dead group (neither BEGIN nor SUCCESS) stays dead under any report -/
+theorem tmChangeMulti_dead (l l' : Led) (gid : GId) (g g' : Global) (id : TxId) (typ : Nat)
+    (h : tmChangeMulti l gid g id typ = .ok (l', g')) (hd : g.state.dead = true) : g'.state.dead = true := by
+  have hb : g.state ≠ .begin := by intro hh; rw [hh] at hd; cases hd
+  have hs : g.state ≠ .success := by intro hh; rw [hh] at hd; cases hd
+  have h1 := tmChangeMulti_not_begin l l' gid g g' id typ h hb
+  have h2 := C05_failed_group_never_succeeds l l' gid g g' id typ h hb hs
+  unfold Status.dead
+  simp [h1, h2]
+
+/-- what `Report` may do to the record of a group: nothing, or the report's own group made one
+`changeMultiTxStatus` step -/
+theorem tmReport_glob_dead {l : Led} {id : TxId} {typ : Nat} {r : Led × StatusChange}
+    (e : tmReport l id typ = .ok r) (gid : GId) (st : Status) (hst : globState l gid = some st) (hd : st.dead = true) :
+    ∃ st', globState r.1 gid = some st' ∧ st'.dead = true := by
+  unfold tmReport at e
+  split at e
+  · split at e
+    · cases e
+    · cases e
+      refine ⟨st, ?_, hd⟩
+      unfold globState at *
+      simp only [Led.getS_setS]
+      rw [if_neg (by intro hh; cases hh)]
+      exact hst
+  · cases e
+  · split at e
+    · rename_i gid0 hch
+      split at e
+      · rename_i g hg
+        split at e
+        · cases e
+        · split at e
+          · cases e
+          · rename_i l1 g' h0
+            cases e
+            by_cases hgid : gid0 = gid
+            · subst hgid
+              have hstate : st = g.state := by
+                unfold globState at hst; rw [hg] at hst; exact (Option.some.inj hst).symm
+              refine ⟨g'.state, ?_, ?_⟩
+              · unfold globState; simp
+              · exact tmChangeMulti_dead _ _ _ _ _ _ _ h0 (by rw [← hstate]; exact hd)
+            · refine ⟨st, ?_, hd⟩
+              unfold globState at *
+              simp only [Led.getS_setS]
+              rw [if_neg (by intro hh; exact hgid (Key.glob.inj hh)), tmChangeMulti_glob h0 gid]
+              exact hst
+      · cases e
+    · cases e
+
+open Bxh.Props.C02 in
+/-- one handled IBTP keeps every dead group dead -/
+theorem handleIBTP_glob_dead {env : Env} {l : Led} {i : Ibtp} {r : Led × String}
+    (h : handleIBTP env l i = .ok r) (gid : GId) (st : Status) (hst : globState l gid = some st) (hd : st.dead = true) :
+    ∃ st', globState r.1 gid = some st' ∧ st'.dead = true := by
+  obtain ⟨ck, hck⟩ := handleIBTP_ok_checked h
+  unfold handleIBTP at h
+  simp only [hck] at h
+  split at h
+  · cases h
+  · rename_i l1 c hr
+    have hafter : r.1.getS (.glob gid) = l1.getS (.glob gid) := by
+      have hn : (notifySrcDst env l1 ck.src ck.dst c ck.isBatch).getS (.glob gid) = l1.getS (.glob gid) := notifySrcDst_glob _ _ _ _ _ _ _
+      have hp := processIBTP_glob (notifySrcDst env l1 ck.src ck.dst c ck.isBatch) i ck c gid
+      generalize hpr : processIBTP (notifySrcDst env l1 ck.src ck.dst c ck.isBatch) i ck c = pr at h hp
+      obtain ⟨l3, ret⟩ := pr
+      simp only at h hp
+      split at h
+      · split at h
+        · cases h
+        · cases h
+          show ((l3.post .audit).post .audit).getS _ = _
+          simp only [Led.getS_post]
+          rw [hp, hn]
+      · cases h; rw [hp, hn]
+    have key : ∃ st', globState l1 gid = some st' ∧ st'.dead = true := by
+      by_cases hreq : i.typ.isRequest = true
+      · simp only [hreq, if_true] at hr
+        unfold beginTransaction at hr
+        simp only at hr
+        split at hr
+        · split at hr
+          · cases hr
+          · rename_i r0 h0; cases hr
+            exact ⟨st, by unfold globState at *; rw [tmBeginInter_glob h0]; exact hst, hd⟩
+        · split at hr
+          · cases hr
+            exact ⟨st, by unfold globState at *; simpa [tmBegin] using hst, hd⟩
+          · rename_i grp hgrp
+            split at hr
+            · cases hr
+            · rename_i r0 h0; cases hr
+              obtain ⟨hother, hown⟩ := tmBeginMulti_glob h0 gid
+              by_cases hg : gid = globalId ck.src grp
+              · subst hg
+                unfold globState at hst
+                split at hst
+                · rename_i g hgl
+                  cases hst
+                  have hnb : g.state ≠ .begin := by intro hh; rw [hh] at hd; cases hd
+                  obtain ⟨g', hg', hs'⟩ := (tmBeginMulti_glob h0 (globalId ck.src grp)).2 g hgl hnb
+                  exact ⟨g'.state, by unfold globState; rw [hg'], by rw [hs']; exact hd⟩
+                · cases hst
+              · exact ⟨st, by unfold globState at *; rw [hother hg]; exact hst, hd⟩
+      · simp only [hreq, if_false, Bool.false_eq_true] at hr
+        split at hr
+        · cases hr
+        · rename_i y hy
+          cases hr
+          exact tmReport_glob_dead hy gid st hst hd
+    obtain ⟨st', h1, h2⟩ := key
+    exact ⟨st', by unfold globState at *; rw [hafter]; exact h1, h2⟩
+
+open Bxh.Props.C02 in
+/-- **a failed or timed-out group never succeeds, over any history of IBTPs**: once the global state of a
+one-to-many transaction is neither BEGIN nor SUCCESS, no sequence of requests and receipts (late children of the
+group, success receipts of children, traffic of other groups and pairs, valid or not) makes it BEGIN or SUCCESS again -/
+theorem C05_history_failed_group_stays_failed (env : Env) (gid : GId) (is : List Ibtp) (l : Led) (st : Status)
+    (hst : globState l gid = some st) (hd : st.dead = true) :
+    ∃ st', globState (runIbtps env l is) gid = some st' ∧ st'.dead = true := by
+  induction is generalizing l st with
+  | nil => exact ⟨st, hst, hd⟩
+  | cons i rest ih =>
+    simp only [runIbtps, List.foldl_cons]
+    cases hh : handleIBTP env l i with
+    | error e => simp only; exact ih l st hst hd
+    | ok r =>
+      simp only
+      obtain ⟨st1, h1, h2⟩ := handleIBTP_glob_dead hh gid st hst hd
+      change ∃ st', globState (runIbtps env r.1 rest) gid = some st' ∧ st'.dead = true
+      exact ih r.1 st1 h1 h2
+
+/-- non-vacuity: a group whose second child could not begin is dead (BEGIN_FAILURE), and the success receipt of its
+first child does not revive it -/
+example :
+    let svc : Svc := { ordered := true, blacklist := [], available := true }
+    let l : Led := { store := [(.svc "c1" "s1", .svc svc), (.svc "c2" "s1", .svc svc)] }
+    let env : Env := { cfg := {}, cache := [], height := 7, txIndex := 0 }
+    let s11 : SvcId := { bxh := "1356", chain := "c1", sid := "s1" }
+    let s21 : SvcId := { bxh := "1356", chain := "c2", sid := "s1" }
+    let s29 : SvcId := { bxh := "1356", chain := "c2", sid := "s9" }        -- no such service: begin-failure
+    let grp := [(s21, 1), (s29, 1)]
+    let m (t : SvcId) (ty : IType) : Ibtp := { frm := some s11, to := some t, index := 1, typ := ty, timeout := 0, group := some grp }
+    let gid := globalId s11 grp
+    globState (Bxh.Props.C02.runIbtps env l [m s21 .interchain, m s29 .interchain]) gid = some .beginFailure ∧
+    (globState (Bxh.Props.C02.runIbtps env l [m s21 .interchain, m s29 .interchain, { m s21 .receiptSuccess with group := none }]) gid).map Status.dead = some true := by
+  decide
 
 end Bxh.Props.C05
